@@ -281,6 +281,18 @@ def gen(tier, rng):
                         if o["k"] == "let":
                             o["vt"] = use_sfx or "S"
                     progs.append(("fname", pr))
+    # a parameter that carries the name of a FUNCTION: with another type it is a duplicate definition
+    for t in TYPES:
+        for pt in TYPES:
+            for ext in (False, True):
+                main = [mk("let", "QA", sfx=pt), {"k": "call"}, mk("print", "QA", sfx=pt)]
+                pr = build([], main, [mk("print", "QB", sfx="I")])
+                pr["params"] = [{"b": "F", "t": pt, "ext": ext, "argb": "QA", "arr": False}]
+                pr["fn"] = [{"b": "F", "t": t, "id": 4}]
+                for o in pr["main"]:
+                    if o["k"] == "let":
+                        o["vt"] = pt
+                progs.append(("fname-param", pr))
     # a constant defined from another constant: the name on the right resolves in the scope of the definition
     for gsfx in ("", "$"):
         for local_first in (True, False):
